@@ -236,8 +236,8 @@ type gen struct {
 }
 
 // counts to announce at a header, ascending; the caller stops escalating at the first allocation violation.
-// quick: n+1, the declared bounds of the type next above n (B and B+1), 65536, 2^20, 2^31, 2^32-1; thorough: every bound and
-// every size-class edge.
+// n+1, the 3 (thorough: 8) declared bounds of the type next above n (B and B+1), 65536, 2^20, 2^31, 2^32-1 (thorough: every
+// size-class edge).
 func (g *gen) counts(cur int) []uint32 {
 	set := map[uint32]bool{uint32(cur + 1): true}
 	var bs []int
@@ -249,7 +249,7 @@ func (g *gen) counts(cur int) []uint32 {
 	sort.Ints(bs)
 	taken := 0
 	for _, b := range bs {
-		if !vh.Thorough() && (b < cur || taken >= 3) {
+		if b < cur || taken >= vh.Budget(3, 8) {
 			continue
 		}
 		set[uint32(b)] = true
@@ -364,7 +364,7 @@ func (g *gen) mutations(valid []byte, budgetHdrs int, directed bool) {
 		g.emit("arrayform", splice(valid, n.pos, n.end, append(anyHdr('a', n.count), vs...)))
 		g.emit("arrayform", splice(valid, n.pos, n.end, append(anyHdr('a', n.count+40), vs...)))
 	}
-	maxIn := vh.Budget(32<<10, 512<<10) // size cap of a directed at-bound input
+	maxIn := vh.Budget(32<<10, 64<<10) // size cap of a directed at-bound input
 	if !directed {
 		maxIn = 0
 	}
@@ -751,9 +751,9 @@ func Run(t *testing.T, pkg string, types []TI) {
 	for _, ti := range types {
 		tc := ctxOf(ti)
 		// entry-point types get the larger share of the budget
-		k, hdrs := vh.Budget(1, 3), vh.Budget(2, 4)
+		k, hdrs := vh.Budget(1, 2), vh.Budget(2, 3)
 		if ti.Class != "" || ti.Net {
-			k, hdrs = vh.Budget(3, 6), vh.Budget(4, 8)
+			k, hdrs = vh.Budget(3, 4), vh.Budget(4, 6)
 		}
 		g := &gen{tc: tc, r: vh.NewRng(seedOf(vh.Seed(), pkg, ti.Name))}
 		g.emit = func(kind string, b []byte) { one(tc, kind, b) }
@@ -774,7 +774,7 @@ func Run(t *testing.T, pkg string, types []TI) {
 				}
 				one(tc, "valid", []byte(valid))
 				if n%2 == 0 || vh.Thorough() {
-					g.mutations([]byte(valid), hdrs, n < 4 || (vh.Thorough() && n < 24))
+					g.mutations([]byte(valid), hdrs, n < 4 || (vh.Thorough() && n < 8))
 				}
 				n++
 			}
